@@ -316,6 +316,19 @@ func SerializeEntries(entries []EntryV3, compression Compression) []byte {
 }
 
 func DeserializeEntries(data *bytes.Buffer, compression Compression) []EntryV3 {
+	if compression != NoCompression && compression != Gzip {
+		panic("Compression not supported")
+	}
+	entries, err := deserializeEntriesChecked(data, compression)
+	if err != nil {
+		return make([]EntryV3, 0)
+	}
+	return entries
+}
+
+// deserializeEntriesChecked decodes a directory and reports corrupt, truncated or
+// unsupported input as an error instead of panicking or fabricating entries.
+func deserializeEntriesChecked(data *bytes.Buffer, compression Compression) ([]EntryV3, error) {
 	entries := make([]EntryV3, 0)
 
 	var reader io.Reader
@@ -323,33 +336,52 @@ func DeserializeEntries(data *bytes.Buffer, compression Compression) []EntryV3 {
 	if compression == NoCompression {
 		reader = data
 	} else if compression == Gzip {
-		reader, _ = gzip.NewReader(data)
+		gzipReader, err := gzip.NewReader(data)
+		if err != nil {
+			return nil, err
+		}
+		reader = gzipReader
 	} else {
-		panic("Compression not supported")
+		return nil, errors.New("compression not supported")
 	}
 	byteReader := bufio.NewReader(reader)
 
-	numEntries, _ := binary.ReadUvarint(byteReader)
+	numEntries, err := binary.ReadUvarint(byteReader)
+	if err != nil {
+		return nil, err
+	}
 
 	lastID := uint64(0)
 	for i := uint64(0); i < numEntries; i++ {
-		tmp, _ := binary.ReadUvarint(byteReader)
+		tmp, err := binary.ReadUvarint(byteReader)
+		if err != nil {
+			return nil, err
+		}
 		entries = append(entries, EntryV3{lastID + tmp, 0, 0, 0})
 		lastID = lastID + tmp
 	}
 
 	for i := uint64(0); i < numEntries; i++ {
-		runLength, _ := binary.ReadUvarint(byteReader)
+		runLength, err := binary.ReadUvarint(byteReader)
+		if err != nil {
+			return nil, err
+		}
 		entries[i].RunLength = uint32(runLength)
 	}
 
 	for i := uint64(0); i < numEntries; i++ {
-		length, _ := binary.ReadUvarint(byteReader)
+		length, err := binary.ReadUvarint(byteReader)
+		if err != nil {
+			return nil, err
+		}
 		entries[i].Length = uint32(length)
 	}
 
 	for i := uint64(0); i < numEntries; i++ {
-		tmp, _ := binary.ReadUvarint(byteReader)
+		tmp, err := binary.ReadUvarint(byteReader)
+		if err != nil {
+			return nil, err
+		}
 		if i > 0 && tmp == 0 {
 			entries[i].Offset = entries[i-1].Offset + uint64(entries[i-1].Length)
 		} else {
@@ -357,7 +389,7 @@ func DeserializeEntries(data *bytes.Buffer, compression Compression) []EntryV3 {
 		}
 	}
 
-	return entries
+	return entries, nil
 }
 
 func findTile(entries []EntryV3, tileID uint64) (EntryV3, bool) {
